@@ -9,6 +9,7 @@
  *                                  | SUCCEEDED-DESPITE-FAILURE draws=<k> out=<hex prefix>
  *   det    <op> <seed>            same stream and clock twice -> SAME bytes=<n> digest=<sm3> | DIFFERENT
  *   fresh  <op> <seed1> <seed2>   different streams -> DISTINCT | SAME-EPHEMERAL eph=<hex> | NOEPH
+ *   rbytes / rr / pooltrace / (ur in ur_harness.c)   gateway, rejection sampling and nonce pool, line-compared with the Coq models
  *   eint   <op> <seed> <i> <EINTR|EAGAIN|EIO|ENOSYS|untouched> <k>
  *                                 the next k attempts at draw i fail with that errno (destination poisoned), then the
  *                                 source works again and serves the same bytes as in the healthy run
@@ -286,6 +287,57 @@ static void handle(size_t nw, char **w) {
 		return;
 	}
 	if (nw == 6 && !strcmp(w[0], "recover")) { do_recover(w); return; }
+	if (nw == 4 && !strcmp(w[0], "rbytes")) {
+		/* gateway level, compared with Sys/Gateway.v rand_bytes_unix: rbytes <len | -1 = NULL buffer> <k failing attempts> <errno> */
+		long len = atol(w[1]); int k = atoi(w[2]); size_t n = len < 0 ? 8 : (size_t)len; uint8_t *b = malloc(n ? n : 1), *ref = malloc(n ? n : 1); int r;
+		memset(b, 0x5c, n ? n : 1);
+		ent_seed(4242, -1); errno = 0; ent_calls = 0;
+		if (k > 0) entfault_set(0, k, errno_of_name(w[3]));
+		r = rand_bytes(len < 0 ? NULL : b, n);
+		entfault_clear();
+		if (r == 1) {
+			ent_seed(4242, -1);
+			if (n && n <= 256 && verif_ent_getentropy(ref, n) == 0 && !memcmp(ref, b, n)) printf("EXACT rc=1 attempts=%ld", ent_calls);
+			else printf("BAD rc=1 attempts=%ld (bytes are not the ones the source served)", ent_calls);
+		} else printf("FAILED rc=%d attempts=%ld", r, ent_calls);
+		free(b); free(ref);
+		return;
+	}
+	if (nw == 3 && !strcmp(w[0], "rr")) {
+		/* rejection sampling, compared with Sys/Rand.v rand_range: rr <sm2|sm9> <script of h (value >= range) / l (value 1) / f (source fails)> */
+		size_t n = strlen(w[2]), i; uint8_t *sc = malloc(32 * n + 32); long failat = -1; int r; sm2_z256_t v2; sm9_z256_t v9;
+		for (i = 0; i < n; i++) {
+			memset(sc + 32 * i, w[2][i] == 'h' ? 0xff : 0x00, 32);
+			if (w[2][i] == 'l') sc[32 * i] = 1;
+			if (w[2][i] == 'f' && failat < 0) failat = (long)i;
+		}
+		ent_script(sc, 32 * n, failat);
+		ent.sm = 0;                                                 /* after the script: splitmix bytes (accepted with overwhelming probability) */
+		r = !strcmp(w[1], "sm2") ? sm2_z256_rand_range(v2, sm2_z256_order()) : sm9_z256_rand_range(v9, sm9_z256_order());
+		printf("rc=%d draws=%ld", r, ent.draws);
+		free(sc);
+		return;
+	}
+	if (nw == 4 && !strcmp(w[0], "pooltrace")) {
+		/* the nonce pool of one SM2_SIGN_CTX, compared with Sys/Rand.v sign_step: pooltrace <seed> <attempts> <failing draw indices a,b,c | ->  */
+		SM2_SIGN_CTX *sc; int n = atoi(w[2]), i, nf = 0; long fl[16]; char *save = NULL, *t; uint8_t sig[SM2_MAX_SIGNATURE_SIZE]; size_t sl;
+		prep(strtoull(w[1], NULL, 10) >> 8);
+		if (strcmp(w[3], "-")) for (t = strtok_r(w[3], ",", &save); t && nf < 16; t = strtok_r(NULL, ",", &save)) fl[nf++] = atol(t);
+		sc = malloc(sizeof *sc);
+		ent_seed(strtoull(w[1], NULL, 10), -1);
+		if (sm2_sign_init(sc, &C->sm2, SM2_DEFAULT_ID, SM2_DEFAULT_ID_LENGTH) != 1 || ent.draws != 32) { printf("ERR init draws=%ld", ent.draws); free(sc); return; }
+		printf("ok=");
+		for (i = 0; i < n; i++) {
+			int j; long next = -1;
+			for (j = 0; j < nf; j++) if (fl[j] >= ent.draws && (next < 0 || fl[j] < next)) next = fl[j];
+			ent.fail_at = next;
+			sl = 0;
+			printf("%d", sm2_sign_reset(sc) == 1 && sm2_sign_update(sc, C->msg, C->msglen) == 1 && sm2_sign_finish(sc, sig, &sl) == 1);
+		}
+		printf(" draws=%ld", ent.draws);
+		free(sc);
+		return;
+	}
 	if (nw < 3 || !(op = find_op2(w[1]))) { printf("ERR usage"); return; }
 	seed = strtoull(w[2], NULL, 10);
 	prep(seed >> 8);                                           /* 256 stream seeds share one key set */
